@@ -4,6 +4,7 @@ package mirrored
 
 import (
 	"context"
+	remoteexecution "github.com/bazelbuild/remote-apis/build/bazel/remote/execution/v2"
 	"io"
 	"strings"
 
@@ -148,7 +149,10 @@ func verifGetOnce(ctx context.Context, p *verifPair) {
 		// composite read (the child is the whole parent): same replica order, same repair
 		vnd.Cover(verifTagComposite) // not demanded of callers that cannot reach it (M4)
 		firstOp = "GetFromComposite"
-		data, err = p.ba.GetFromComposite(ctx, d, d, verifWholeSlicer{}).ToByteSlice(100)
+		// the child is a digest no replica knows as an object of its own: replicas are only ever
+		// asked for the PARENT
+		child := digest.MustNewDigest("inst", remoteexecution.DigestFunction_MD5, "ffffffffffffffffffffffffffffffff", 1)
+		data, err = p.ba.GetFromComposite(ctx, d, child, verifWholeSlicer{}).ToByteSlice(100)
 	} else {
 		// chunked consumption: the read is complete when Read reports io.EOF; the repair of
 		// the first replica must have finished by then
@@ -496,7 +500,6 @@ func Verif_C11_M5_ChunkedReadRepairSchedules() {
 	vnd.Cover("repaired-at-eof")
 }
 
-
 var verifTagComposite = "get-composite"
 
 // verifWholeSlicer designates the whole parent as the requested child.
@@ -505,7 +508,6 @@ type verifWholeSlicer struct{}
 func (verifWholeSlicer) Slice(b buffer.Buffer, childDigest digest.Digest) (buffer.Buffer, []slicing.BlobSlice) {
 	return b, nil
 }
-
 
 // Verif_C11_M7_LossyRepairIsNotNotFound: the mirrored pair over the
 // copy-then-read-back replicator strategies (concurrency-limiting, deduplicating):
